@@ -52,6 +52,8 @@ pub enum Reply {
     Object {
         data: Vec<u8>,
         last_modified: Option<String>,
+        /// the connection is cut after this many body bytes (decided by the server side)
+        cut_at: Option<usize>,
     },
     /// The request could not be sent / the connection failed before a response.
     SendError,
@@ -433,7 +435,13 @@ pub fn build_response(reply: Reply, plan: &BodyPlan) -> Result<reqwest::Response
         Reply::Object {
             data,
             last_modified,
+            cut_at,
         } => {
+            let mut plan = plan.clone();
+            if cut_at.is_some() {
+                plan.cut_at = cut_at;
+            }
+            let plan = &plan;
             let mut b = http::Response::builder()
                 .status(200)
                 .header("Content-Type", "binary/octet-stream")
